@@ -263,6 +263,7 @@ def explore(harness, params=None, max_paths=200000, budget_s=None, want_traces=T
     t0 = time.time()
     deadline = t0 + budget_s if budget_s else None
     ex = Explorer(max_paths=max_paths, deadline=deadline)
+    per_kind = {}
     core._CUR = ex
     core._MEMO.clear()
     try:
@@ -292,10 +293,16 @@ def explore(harness, params=None, max_paths=200000, budget_s=None, want_traces=T
                 except Unsupported as e:
                     res.inconclusive = "unsupported: %s" % (e,)
                     break
-            if len(res.violations) < max_violations:
-                res.violations.extend(sx.violations)
-            elif sx.violations:
-                res.notes["violations_truncated"] = True
+            # the cap is per (check label, known-finding id): hits of one kind (e.g. a listed known finding) never
+            # crowd out a violation of another kind found later in the exploration
+            for v in sx.violations:
+                key = (v.label, getattr(v, "known_id", None))
+                n_ = per_kind.get(key, 0)
+                if n_ < max_violations:
+                    res.violations.append(v)
+                    per_kind[key] = n_ + 1
+                else:
+                    res.notes["violations_truncated"] = True
             res.merge_counts(sx.reached)
             for k, v in sx.notes.items():
                 res.notes[k] = res.notes.get(k, 0) + v if isinstance(v, int) else v
